@@ -21,8 +21,9 @@ import tempfile
 CLAIM = dict(
     text=("Machine-checked proof (Lean 4), generic in the method signature and for ALL context stacks, call shapes and "
           "with-structured programs: a resolved argument is the explicit one, else that of the innermost context setting it, "
-          "else the default (precedence); a call with a Required argument left is rejected and emits nothing, and is "
-          "accepted otherwise (required_rejected); after any block - any nesting, normal exit, exception at any depth, "
+          "else the default, which is the one the source pairs with the parameter (precedence, default_param, default_kwonly, "
+          "passing_styles_agree); a call with a Required argument left is rejected and emits nothing, and is "
+          "accepted otherwise (required_rejected, accepted_complete, rejected_sends_nothing); after any block - any nesting, normal exit, exception at any depth, "
           "failing stop signal - the stack is exactly the one before (restore); an application block ends with a stop "
           "signal resolved to the block's application (application_stops); the connection used is the local Ethernet "
           "chip's when known, the BMP's most specific one (connection_choice).  The signature of every decorated method "
@@ -41,6 +42,7 @@ CLAIM = dict(
     technique="Lean 4 theorems over a hand-written model + translator for signatures/constants + differential correspondence + Lean spec as oracle")
 
 THEOREMS = ["signatures_wellformed", "every_method_has_rule", "precedence", "precedence_accepted", "ctxLookup_innermost",
+            "default_param", "default_kwonly", "passing_styles_agree",
             "required_rejected", "rejected_names_required", "accepted_complete", "rejected_sends_nothing",
             "restore", "restore_application", "restore_inner", "restore_arguments",
             "stop_targets_application", "application_stops", "connection_choice_mc", "connection_choice_bmp"]
@@ -606,6 +608,7 @@ def evaluate(ctx, cases):
 # generators
 # --------------------------------------------------------------------------
 _SIGS = {}
+_SKIP = set()
 
 
 def signatures():
@@ -615,6 +618,10 @@ def signatures():
         for s in g.read_signatures(common.REPO):
             _SIGS[(s["cls"], s["name"])] = s
     return _SIGS
+
+
+class UnknownMethod(Exception):
+    """a decorated method (or parameter) the generators know nothing about: reported, never silently skipped"""
 
 
 class Gen(object):
@@ -654,7 +661,10 @@ class Gen(object):
         params = sig["argNames"][1:]
         kwonly = [k for k, _ in sig["kwOnly"]]
         cnames = ctx_names(self.cls)
-        given, extra = method_args(self.cls, name, rng)
+        try:
+            given, extra = method_args(self.cls, name, rng)
+        except KeyError:
+            raise UnknownMethod("%s.%s: the generators have no argument values for this method" % (self.cls, name))
         ndef = len(sig["defaults"])
         has_default = set(params[len(params) - ndef:]) if ndef else set()
         has_default |= {k for k, (v, _) in sig["kwOnly"] if v != {"k": "required"}}
@@ -689,7 +699,7 @@ class Gen(object):
             elif n in given:
                 v = given[n]
             else:
-                raise KeyError("%s.%s: no value for parameter %s" % (self.cls, name, n))
+                raise UnknownMethod("%s.%s: no value for parameter %s" % (self.cls, name, n))
             if i < npos:
                 pos.append(obj_token(v))
                 continue
@@ -759,6 +769,13 @@ def systematic_cases(ctx, rng, reps):
     cases = []
     for (cls, name), sig in sorted(signatures().items()):
         cn = [n for n in sig["argNames"][1:] + [k for k, _ in sig["kwOnly"]] if n in ctx_names(cls)]
+        try:
+            Gen(rng, cls, random_cfg(rng, cls)).call(name, "positional")
+        except UnknownMethod as e:
+            ctx.broken.append("harness: %s" % e)
+            ctx.extra.setdefault("methods_not_driven", []).append("%s.%s" % (cls, name))
+            _SKIP.add((cls, name))
+            continue
         for rep in range(reps):
             for style in ("positional", "keyword", "context", "default", "mixed"):
                 for nesting in range(4):
@@ -806,7 +823,8 @@ def systematic_cases(ctx, rng, reps):
 def random_prog(g, depth, budget):
     rng = g.rng
     cls = g.cls
-    names = sorted(n for (c, n) in signatures() if c == cls and n not in ("application", "discover_connections"))
+    names = sorted(n for (c, n) in signatures() if c == cls and n not in ("application", "discover_connections")
+                   and (c, n) not in _SKIP)
     prog = []
     n = rng.randrange(1, 4)
     for _ in range(n):
@@ -895,6 +913,31 @@ def check_signature_table(ctx):
     ctx.extra["decorated_methods"] = len(signatures())
 
 
+def style_probe(ctx):
+    """Observation (not a verdict): methods whose wire traffic differs between passing the same contextual
+    values by keyword and through an enclosing context (inner calls that omit an argument pick it up
+    from the context)."""
+    import random
+    differs = {}
+    fixed = {"x": 3, "y": 5, "p": 7, "app_id": 40, "processor": 9, "cabinet": 0, "frame": 0, "board": 1}
+    for (cls, name) in sorted(signatures()):
+        if (cls, name) in _SKIP or name in ("application", "discover_connections"):
+            continue
+        cfg = {"dims": None, "root": None, "conns": []} if cls == "MachineController" else {"bmp_conns": [[0, 0]]}
+        obs = []
+        for style in ("keyword", "context"):
+            g = Gen(random.Random(1), cls, cfg)
+            st, need = g.call(name, style, ctxvals=dict(fixed))
+            prog = [{"s": "block", "id": 99, "ctx": [[k, v] for k, v in need.items()], "body": [st]}] if need else [st]
+            r = run_impl({"cls": cls, "cfg": cfg, "init": None, "prog": prog})
+            ev = [e for e in r["events"] if e["ev"] == "call"]
+            obs.append([(d["x"], d["y"], d["p"], d["cmd"], d["arg1"], d["arg2"]) for d in ev[0]["datagrams"]] if ev else None)
+        if obs[0] != obs[1]:
+            differs["%s.%s" % (cls, name)] = {"keyword": [list(t[:3]) for t in (obs[0] or [])][:3],
+                                              "context": [list(t[:3]) for t in (obs[1] or [])][:3]}
+    ctx.extra["wire_depends_on_passing_style"] = differs
+
+
 def run(ctx):
     ctx.extra["rule"] = RULE
     ctx.assumptions += [
@@ -911,6 +954,7 @@ def run(ctx):
         cases += random_cases(ctx, rng, ctx.scale(400, 40000) * mult)
         for i in range(0, len(cases), 2000):
             evaluate(ctx, cases[i:i + 2000])
+        style_probe(ctx)
         tapped = ctx.tags.get("tapped", 0)
         ctx.extra["closure_tap_calls"] = tapped
         missing = [k for k in signatures() if ("method:%s.%s" % ("mc" if k[0] == "MachineController" else "bmp", k[1])) not in ctx.tags
